@@ -454,7 +454,7 @@ func init() {
 func TestC14Clients(t *testing.T) {
 	rec := evid.New(t, "C14", "client-type endpoints under generated fault sequences: TCP client against a harness server that is down for a while (failed connection attempts), accepts and then ends the connection by EOF, reset or silence (idle timeout); serial endpoint (hooked opener) whose open fails several times and whose reads fail with an injected error; oracles: strictly alternating open/close events (never two channels at once), every close event carries an error matching the injected cause, a fresh channel opens after every close but not earlier than the reconnect delay, connections seen by the peer == open events; non-trivial = >=2 consecutive failures including a failed connect; distinct by hash of the phases")
 	rec.Require("tcp-client", "serial", "failed-connect-then-failure", "idle-expiry", "reset")
-	evid.Check(t, rec, evid.N(24, 100), func(t *rapid.T) {
+	evid.Check(t, rec, evid.N(30, 100), func(t *rapid.T) {
 		// several independent sub-scenarios run concurrently to use the waiting time
 		k := rapid.IntRange(3, 6).Draw(t, "batch")
 		type sub struct {
@@ -649,7 +649,7 @@ func runServer(udp bool, peers []string) error {
 func TestC14Servers(t *testing.T) {
 	rec := evid.New(t, "C14", "TCP and UDP server endpoints with 2..5 generated peers that leave, fall silent (idle expiry after ~IdleTimeout with a timeout error) or keep sending every IdleTimeout/4 for 5 x IdleTimeout (must stay open; discarded as inconclusive when the sender itself stalled); every peer gets its own channel and accepting continues; non-trivial = a silent and a keepalive peer together; distinct by hash of the peer list")
 	rec.Require("tcp-server", "udp-server", "silent+keepalive")
-	evid.Check(t, rec, evid.N(6, 30), func(t *rapid.T) {
+	evid.Check(t, rec, evid.N(8, 30), func(t *rapid.T) {
 		k := rapid.IntRange(3, 6).Draw(t, "batch")
 		type sub struct {
 			udp   bool
